@@ -430,7 +430,7 @@ def msgs_strategy():
 
 
 def plan(tier, seed):
-    specs = [dict(name="trees-%d" % i, kind="trees", n=250 if tier == "quick" else 3000) for i in range(16)]
+    specs = [dict(name="trees-%d" % i, kind="trees", n=350 if tier == "quick" else 10000) for i in range(16)]
     specs.append(dict(name="hops", kind="hops"))
     specs.append(dict(name="rings", kind="rings"))
     specs.append(dict(name="all-messages", kind="allmsgs", tier=tier))
